@@ -148,11 +148,17 @@ K_OVER_MAX = 6  # largest K drawn for the "K > covered nodes" family (cost only)
 
 
 @st.composite
-def mt_cases(draw, tier, normalizeU=None, min_value_par=None, n_real=(1, 3), ascent=False):
+def mt_cases(draw, tier, normalizeU=None, min_value_par=None, n_real=(1, 3), ascent=False,
+             window=False):
     c = draw(hypergraph_cases(tier))
     c["seed"] = draw(seeds)
     c["n_real"] = draw(st.sampled_from(list(range(n_real[0], n_real[1] + 1))))
     c["max_iter"] = draw(st.integers(3, 40)) if ascent else draw(st.integers(1, 40))
+    if window and draw(st.booleans()):
+        # realisations converge after 17..28 iterations (measured: median 17, 95 % below 29):
+        # with max_iter inside that window some realisations of one fit converge and others
+        # are cut off -- the best one must win whichever kind it is
+        c["max_iter"] = draw(st.sampled_from([17, 18, 19, 20, 21, 22, 24, 27]))
     c["normalizeU"] = draw(st.sampled_from([False, True])) if normalizeU is None else normalizeU
     # the spectral start runs into the known finding at once (see PRECISION_LOSS): keep it
     # in the ascent clause, but less often
@@ -592,6 +598,14 @@ def check_bookkeeping(case, ctx):
     require(float(maxL) == best,
             lambda: "returned log-likelihood %r, but the final values per realisation in "
                     "train_info are %r (max %r)" % (float(maxL), finals, best), key="maxL")
+    ti = model.train_info
+    if "reached_convergence" in ti.columns:
+        conv = {int(r): bool(g["reached_convergence"].iloc[-1]) for r, g in ti.groupby("realization")}
+        if len(set(conv.values())) > 1:
+            ctx.label("converged_and_cut_off_realisations_in_one_fit")
+            top = max(finals, key=lambda r: finals[r])
+            if not conv.get(top, True):
+                ctx.label("best_realisation_was_cut_off_by_max_iter")
     if len(set(finals.values())) > 1:
         ctx.label("realisations_differ")
         ctx.nontrivial(case["n_real"] >= 2)
@@ -872,7 +886,8 @@ CLAUSES = [
     Clause("mt_validity", lambda tier: mt_cases(tier), check_validity,
            quick=200, thorough=900, shards_quick=2,
            rule="maximum hyperedge size >= 3 and an isolated node present"),
-    Clause("mt_bookkeeping", lambda tier: mt_cases(tier, n_real=(1, 3)), check_bookkeeping,
+    Clause("mt_bookkeeping", lambda tier: mt_cases(tier, n_real=(1, 4), window=True),
+           check_bookkeeping,
            quick=150, thorough=600, shards_quick=2,
            rule=">= 2 realisations whose final log-likelihoods differ"),
     Clause("mt_ascent", lambda tier: mt_cases(tier, normalizeU=False, ascent=True), check_ascent,
